@@ -446,6 +446,22 @@ fn replay(cases: &str) {
                                         "case": case, "step": i, "before": before, "got": got}));
                                     break;
                                 }
+                                // observations tied to the items: multiplicity() and the list conversion
+                                if pv.multiplicity() as u64 != st["mult"].as_u64().unwrap() {
+                                    rep.mismatch_fp(json!({"fp": format!("multiplicity() after {name} on a {} value is not the number of items", j_str(&before["var"])),
+                                        "case": case, "step": i, "got": pv.multiplicity()}));
+                                    break;
+                                }
+                                if st["convj"] == true {
+                                    match conv_int(&pv, "i64", true, "prim") {
+                                        Ok(c) if int_res_match(&st["conv"], &c, true) => {}
+                                        other => {
+                                            rep.mismatch_fp(json!({"fp": format!("to_multi_int after {name} on a {} value differs from the list model", j_str(&before["var"])),
+                                                "case": case, "step": i, "got": format!("{:?}", other)}));
+                                            break;
+                                        }
+                                    }
+                                }
                             }
                         }
                     }
@@ -602,7 +618,7 @@ fn rand_op(rng: &mut Rng) -> Value {
             op["fls"] = Value::Array((0..k).map(|_| tok_f64(rand_f64(rng))).collect());
         }
         _ => {
-            op["limit"] = Value::from(rng.below(7));
+            op["limit"] = Value::from(if rng.below(3) == 0 { 0 } else { rng.below(7) });
         }
     }
     op
@@ -645,7 +661,7 @@ fn record(n: usize, out: &str) {
     let seqs = n / 20 + 1;
     let mut ops = 0usize;
     for _ in 0..seqs {
-        let v = rand_value(&mut rng, 3);
+        let v = if rng.below(4) == 0 { json!({"var": "Str", "items": [cps_json(&rand_text(&mut rng))]}) } else { rand_value(&mut rng, 3) };
         let mut pv = build(&v);
         w.emit(&json!({"ev": "vinit", "v": project(&pv)}));
         let len = 1 + rng.below(30);
@@ -654,10 +670,15 @@ fn record(n: usize, out: &str) {
             let before = project(&pv);
             let via_value = rng.coin();
             match apply_op(&mut pv, &op, via_value) {
-                Ok(ok) => w.emit(&json!({"ev": "vop", "name": op_name(&op), "on": before["var"], "op": op, "res": "done", "ok": ok, "after": project(&pv)})),
+                Ok(ok) => {
+                    let conv = conv_int(&pv, "i64", true, "prim").unwrap_or_else(|_| json!({"ok": false, "ns": [], "panic": true}));
+                    w.emit(&json!({"ev": "vop", "name": op_name(&op), "on": before["var"], "op": op, "res": "done", "ok": ok, "after": project(&pv),
+                        "mult": pv.multiplicity(), "conv": conv}))
+                }
                 Err(msg) => {
                     panics += 1;
-                    w.emit(&json!({"ev": "vop", "name": op_name(&op), "on": before["var"], "op": op, "res": "panic", "ok": false, "after": before, "msg": msg}));
+                    w.emit(&json!({"ev": "vop", "name": op_name(&op), "on": before["var"], "op": op, "res": "panic", "ok": false, "after": before,
+                        "mult": 0, "conv": {"ok": false, "ns": []}, "msg": msg}));
                 }
             }
             ops += 1;
